@@ -791,7 +791,8 @@ impl Formatter {
 
     let src = node.src.to_string();
     let caption_p = match &node.caption {
-      Some(caption) => self.paragraph(caption),
+      // in text the caption sits inside `![...]`, which cannot hold the newline that ends a paragraph
+      Some(caption) => if self.html { self.paragraph(caption) } else { self.inline_paragraph(caption) },
       None => "".to_string(),
     };
 
